@@ -8,6 +8,7 @@ package explore
 import (
 	"fmt"
 	"hash/fnv"
+	"sync/atomic"
 )
 
 type Kind uint8
@@ -87,6 +88,10 @@ type NondetError struct{ Msg string }
 
 func (e NondetError) Error() string { return "HARNESS-NONDETERMINISM: " + e.Msg }
 
+// Heartbeat counts explorer activity; a watchdog that sees it stand still knows that the
+// execution is blocked inside code the scheduler does not control.
+var Heartbeat atomic.Int64
+
 // Choose asks for an answer in [0,n).  Alternative i>0 costs 1 deviation of kind.
 func (x *Exec) Choose(kind Kind, n int) int { return x.ChooseCost(kind, n, nil) }
 
@@ -96,6 +101,7 @@ func (x *Exec) ChooseCost(kind Kind, n int, costs []int) int {
 		panic(fmt.Sprintf("explore: Choose(%s,%d)", KindNames[kind], n))
 	}
 	x.Steps++
+	Heartbeat.Add(1)
 	if n == 1 && (costs == nil || costs[0] == 0) {
 		return 0
 	}
@@ -161,7 +167,10 @@ type Stats struct {
 }
 
 type Explorer struct {
-	Bounds  Bounds
+	Bounds Bounds
+	// Total, when > 0, additionally bounds the sum of deviations over all bounded kinds
+	// (a joint budget: per-kind bounds alone multiply).
+	Total   int
 	MaxExec int64       // 0 = unlimited
 	Stop    func() bool // polled between executions (deadline)
 	// Prune, when set, is asked at every fresh (non-replayed) choice point whether the
@@ -188,7 +197,19 @@ func (e *Explorer) allowed(p *point, alt int) bool {
 	if b == Unbounded {
 		return true
 	}
-	return int(p.used[p.kind])+p.cost(alt) <= b
+	if int(p.used[p.kind])+p.cost(alt) > b {
+		return false
+	}
+	if e.Total > 0 {
+		sum := p.cost(alt)
+		for k := Kind(0); k < NumKinds; k++ {
+			if e.Bounds[k] != Unbounded {
+				sum += int(p.used[k])
+			}
+		}
+		return sum <= e.Total
+	}
+	return true
 }
 
 // Explore enumerates every choice sequence within the bounds, depth first, defaults
